@@ -15,8 +15,8 @@ RULE = (
     "bind_nak | fault | response | EOF (13 options); for the request: sealed response | fault | bind_ack | EOF; one script-level choice: header-sign flag pattern of the server's acks {always set, never, clear in the first ack then set, set in the first ack then clear}. x 11 scripted "
     "authentication providers (1..4 legs; final empty token; completion only after one more server token). Default = the well-behaved server; deviation bound 2 (quick) / 3 (thorough) plus the full tree for the "
     "2-leg provider. Invariants on every execution: I1 tokens in client PDUs == provider's non-empty outputs in order, first in bind, rest in alter_context; I2 step inputs == server tokens in arrival order; "
-    "I3 no step/alter_context after completion, none for an empty token; I4 request only on an accepted context after a clean handshake, level 6, provider's auth type; I5 sign_only buffers must be used when every client bind/alter PDU and every ack advertised header signing, and must not be used when no ack advertised it or the client's first or last "
-    "bind/alter PDU did not (mixed cases where the text leaves room accept either); I6 nak/fault/unexpected type/EOF/rejection of the desired context => exception, never a plaintext; I7 termination in the step budget, alter_contexts <= provider legs. "
+    "I3 no step/alter_context after completion, none for an empty token; I4 request only on an accepted context after a clean handshake, level 6, provider's auth type; I5 sign_only buffers must be used when every client bind/alter PDU and every processed ack advertised header signing, and must not be used when some processed ack lacked the flag or the "
+    "client's bind did not advertise it; I8 sync and async make the same observable decisions for the same server script (PDU types, tokens, flags, buffer typing, outcome class); I6 nak/fault/unexpected type/EOF/rejection of the desired context => exception, never a plaintext; I7 termination in the step budget, alter_contexts <= provider legs. "
     "state = choice-tree node (prefix of server answers); transition = one client PDU answered."
 )
 ASSUME = ["scripted provider and scripted peer: only the enumerated behaviours are covered", "the EPM hop runs unscripted-correct (its failure modes are C18's)"]
@@ -279,7 +279,8 @@ def invariants(log: dict, prov) -> t.List[t.Tuple[str, dict]]:
         a_c = [bool(d["flags"] & rpc.PFC_SIGN) for d in pdus if d["ptype"] in (rpc.BIND, rpc.ALTER_CONTEXT)]
         a_s = list(log.get("ack_sign_flags", []))
         must_sign = bool(a_c) and all(a_c) and bool(a_s) and all(a_s)
-        must_not = (not any(a_s)) or (not a_c) or (not a_c[0]) or (not a_c[-1])
+        # "exactly when both sides advertised it": the client in its bind, the server in every ack the client processed
+        must_not = (not all(a_s)) or (not a_c) or (not a_c[0])
         for wv in p.wraps:
             types = [ty for ty, _ in wv["iov"]]
             uses = siov.BufferType.sign_only in types
@@ -291,24 +292,50 @@ def invariants(log: dict, prov) -> t.List[t.Tuple[str, dict]]:
 
 def shards(tier: str, seed: int):
     out = []
-    for api in ("sync", "async"):
-        for i in range(len(providers())):
-            out.append(["dfs", api, i, 2 if tier == "quick" else 3])
-        if tier == "thorough":
-            out.append(["dfs", api, 1, 99])
-            out.append(["dfs", api, 2, 99])
+    for i in range(len(providers())):
+        out.append(["dfs", "both", i, 2 if tier == "quick" else 3])
+    if tier == "thorough":
+        out.append(["dfs", "both", 1, 99])
+        out.append(["dfs", "both", 2, 99])
     return out
+
+
+def summary(log: dict):
+    """what an observer of the wire and of the provider sees, independent of the API flavour"""
+    import spnego.iov as siov
+
+    p = log["provider"]
+    pdus = [(d["ptype"], d["flags"], None if d["auth"] is None else (d["auth"]["type"], d["auth"]["level"], d["auth"]["token"]), d.get("ctx_id"), d.get("opnum"), tuple(c[0] for c in d.get("contexts", []))) for d in log["client_pdus"]]
+    wraps = [tuple(str(ty) for ty, _ in w["iov"]) for w in (p.wraps if p else [])]
+    unwraps = [tuple(str(ty) for ty, _ in w["iov"]) for w in (p.unwraps if p else [])]
+    st, val = log["result"]
+    res = (st, val if st == "ok" else None)  # outcome class only: the two flavours may legitimately raise different exception types (e.g. on EOF)
+    return (pdus, list(p.steps) if p else None, wraps, unwraps, res)
 
 
 def run_shard(shard, tier, seed, acc) -> None:
     seams.block_network()
-    _, api, pi, bound = shard
+    _, _both, pi, bound = shard
     prov = providers()[pi]
+    seen: t.Dict[str, t.Dict[t.Tuple[int, ...], t.Any]] = {"sync": {}, "async": {}}
+    for api in ("sync", "async"):
+        _dfs(acc, seed, api, pi, prov, bound, seen[api])
+    # I8: the two flavours must behave identically under every explored script
+    for choices, ssum in seen["sync"].items():
+        asum = seen["async"].get(choices)
+        if asum is None:
+            acc.violate("I8.sync-async.different-choice-trees", ["script-both", pi, list(choices)], {"note": "the async client did not reach the same choice points"}, size=len(choices) * 10 + sum(choices))
+        elif asum != ssum:
+            which = next(i for i, (x, y) in enumerate(zip(ssum, asum)) if x != y)
+            acc.violate("I8.sync-async.differ", ["script-both", pi, list(choices)], {"component": ["pdus", "provider-steps", "wrap-buffer-types", "unwrap-buffer-types", "result"][which], "sync": repr(ssum[which])[:300], "async": repr(asum[which])[:300], "provider": prov[0]}, size=len(choices) * 10 + sum(choices))
 
+
+def _dfs(acc, seed, api, pi, prov, bound, seen) -> None:
     def body(ch):
         return run_one(seed, api, prov, ch)
 
     def on_exec(ch, log):
+        seen[tuple(ch.choices)] = summary(log)
         acc.ev()
         acc.states += 1
         acc.transitions += len(ch.trace)
@@ -327,6 +354,14 @@ def run_shard(shard, tier, seed, acc) -> None:
 
 def replay(case, seed, acc) -> None:
     seams.block_network()
+    if case[0] == "script-both":
+        _, pi, choices = case
+        prov = providers()[pi]
+        sums = [summary(run_one(seed, api, prov, explorer.Chooser(choices))) for api in ("sync", "async")]
+        acc.ev()
+        if sums[0] != sums[1]:
+            acc.violate("I8.sync-async.differ", case, {"sync": repr(sums[0])[:400], "async": repr(sums[1])[:400]})
+        return
     _, api, pi, choices = case
     prov = providers()[pi]
     ch = explorer.Chooser(choices)
